@@ -42,7 +42,10 @@ RULE_ADDED = (
               'by the time the reply is written. '
               ' '
               'Round 9: histories whose PIN file path is a symbolic link into another directory'
-              ' (dangling when there is no PIN yet). ')
+              ' (dangling when there is no PIN yet). '
+              ' '
+              'Round 10: PIN file paths spelled with ./, // and <symlinked directory>/..; scrat'
+              'ch files on another file system than the temp directory in half the shards. ')
 RULE = RULE + " " + RULE_ADDED.strip()
 ASSUMPTIONS = [
     "simulated device keeps its PIN in a state file written before it acknowledges (its NVM)",
@@ -519,6 +522,10 @@ def gen_histories(spec, tmpdir):
                 cases.append({"platform": platform, "start": start, "link": link, "steps": [
                     {"platform": platform, "force": force}, {"platform": platform},
                     {"platform": platform, "force": True}, {"platform": platform}]})
+            for sp in ("dot", "double-slash", "through-a-symlinked-directory"):
+                cases.append({"platform": platform, "start": start, "spelling": sp, "steps": [
+                    {"platform": platform, "force": force}, {"platform": platform},
+                    {"platform": platform, "force": True}, {"platform": platform}]})
     # sampled deeper histories
     extra = 60 if not thorough else 6000
     for _ in range(extra):
@@ -541,8 +548,10 @@ def gen_histories(spec, tmpdir):
                 st["crash"] = rng.choice(CRASH_POINTS)
             steps.append(st)
         steps.append({"platform": platform})
-        cases.append({"platform": platform, "start": start, "steps": steps,
-                      "link": rng.random() < 0.3})
+        lk = rng.random() < 0.3
+        cases.append({"platform": platform, "start": start, "steps": steps, "link": lk,
+                      "spelling": None if lk or rng.random() < 0.7 else rng.choice(
+                          ["dot", "double-slash", "through-a-symlinked-directory"])})
     mine = [c for i, c in enumerate(cases) if i % spec["n"] == spec["shard"]]
     if not thorough:
         # quick: all in-process cases, crash cases limited per shard
@@ -556,6 +565,25 @@ def run_history(acc, case, tmpdir):
     path = os.path.join(tmpdir, "pin.txt")
     devstate = os.path.join(tmpdir, "device.json")
     real = os.path.join(tmpdir, "store", "pin-real.txt")
+    spelled = case.get("spelling")
+    if spelled == "dot":
+        path = os.path.join(tmpdir, ".", "pin.txt")
+    elif spelled == "double-slash":
+        path = tmpdir + "//pin.txt"
+    elif spelled == "through-a-symlinked-directory":
+        # .../conf/../store2/pin.txt where conf is a link to mounts/secrets/current: for
+        # the system this is mounts/secrets/store2/pin.txt - whereas dropping "conf/.."
+        # from the text would name store2/pin.txt next to conf (which exists too)
+        for d_ in ("mounts/secrets/current", "mounts/secrets/store2", "store2"):
+            os.makedirs(os.path.join(tmpdir, d_), exist_ok=True)
+        if not os.path.lexists(os.path.join(tmpdir, "conf")):
+            os.symlink(os.path.join("mounts", "secrets", "current"), os.path.join(tmpdir, "conf"))
+        path = os.path.join(tmpdir, "conf", "..", "store2", "pin.txt")
+        decoy = os.path.join(tmpdir, "store2", "pin.txt")
+        if os.path.lexists(decoy):
+            os.unlink(decoy)
+    if spelled:
+        acc.count("histories_with_a_pin_path_spelled_" + spelled.replace("-", "_"))
     for p in (path, devstate, real):
         if os.path.lexists(p):
             os.unlink(p)
@@ -772,9 +800,12 @@ def adversarial_entropy(acc, n, seed):
 
 def run_shard(spec, acc):
     env.setup()
+    if spec.get("shard", spec.get("seed", 0)) % 4 >= 2 and env.on_other_fs():
+        acc.count("shards_with_files_on_another_file_system_than_the_temp_directory")
     adversarial_entropy(acc, 50 if spec["tier"] == "quick" else 2000,
                         spec["seed"] * 31 + spec["shard"])
-    tmpdir = env.mkdtemp("c10", spec.get("shard", spec.get("seed", 0)) % 2 == 1)
+    tmpdir = env.mkdtemp("c10", spec.get("shard", spec.get("seed", 0)) % 2 == 1,
+                         other_fs=spec.get("shard", spec.get("seed", 0)) % 4 >= 2)
     try:
         for case in gen_histories(spec, tmpdir):
             run_history(acc, case, tmpdir)
